@@ -250,7 +250,7 @@ func panicSame(engineMsg string, n nativeResult) bool {
 	fn := strings.TrimPrefix(engineMsg[:i], "panic in ")
 	if !strings.Contains(n.Msg, val) && !strings.Contains(val, n.Msg) {
 		// run-time error texts carry concrete numbers natively; compare with digits normalised
-		if normDigits(val) != normDigits(n.Msg) {
+		if rtCategory(val) != rtCategory(n.Msg) {
 			return false
 		}
 	}
@@ -325,4 +325,13 @@ func replayFile(path string) int {
 	}
 	fmt.Printf("replay: %s %s\n", res[0].Outcome, res[0].Msg)
 	return 1
+}
+
+func rtCategory(s string) string {
+	for _, cut := range []string{" [", " with length", " (method", " (call"} {
+		if i := strings.Index(s, cut); i >= 0 {
+			s = s[:i]
+		}
+	}
+	return normDigits(s)
 }
